@@ -193,7 +193,7 @@ func TestHonestMatrix(t *testing.T) {
 func TestHonestRandom(t *testing.T) {
 	warm()
 	name := t.Name()
-	hx.Check(t, 800, 20000, 0, func(rt *rapid.T) {
+	hx.Check(t, 800, 60000, 0, func(rt *rapid.T) {
 		c := honestCase{
 			proto:     rapid.SampledFrom([]string{pNoise, pNoise, pTLS}).Draw(rt, "proto"),
 			ti:        rapid.SampledFrom(keys.Types).Draw(rt, "ti"),
